@@ -2,6 +2,7 @@ package rules
 
 import (
 	"fmt"
+	"go/constant"
 	"go/token"
 	"go/types"
 	"strings"
@@ -15,12 +16,12 @@ func init() { register("C12", "other", C12) }
 
 func C12(ctx *Ctx) {
 	R := ctx.R
-	R.Explanation = "Cell rules (abstract interpretation of Step per opcode x M,X,E x interrupt, both packages): the Cycles byte at return has interval lower bound >= 1 and no wrapped value; AllCycles' = AllCycles + Cycles' and the first result is Cycles' (linear forms); with Stopped fixed to false/true the second result and the Stopped field keep that value for every opcode except STP, which sets both true; the OnPC lookup key, the callback call and the opcode fetch address coincide; the WDM callback receives the operand byte that is stored to WDM. Structural rules (SSA, dominance, natural loops): who stores to Stopped/AllCycles in the whole module; RunUntil's loop shape (budget test on the cycle counter, target test dominating Step with nothing in between, counter advanced only by Step's first result, result recomputed after the loop)."
+	R.Explanation = "Cell rules (abstract interpretation of Step per opcode x M,X,E x interrupt, both packages): the Cycles byte at return has interval lower bound >= 1 and no wrapped value; AllCycles' = AllCycles + Cycles' and the first result is Cycles' (linear forms); with Stopped fixed to false/true the second result and the Stopped field keep that value for every opcode except STP, which sets both true; the OnPC lookup key, the callback call and the opcode fetch address coincide; the WDM callback receives the operand byte that is stored to WDM. Structural rules (SSA, dominance, natural loops): who stores to Stopped/AllCycles in the whole module; RunUntil's iteration paths (every path to Step holds the budget test on the cycle counter and the target test with nothing in between, the counter advances by Step's first result, a pass without Step ends the loop, result recomputed after the loop)."
 	R.Trusted = []string{"go/packages + go/ssa", "absint interval and linear-form transfer functions", "flags hold 0/1 (C01/flags01)", "user callbacks and Logger do not modify the CPU"}
 	R.Rule("cycles>=1", "in every Step cell the cycle count at return is at least 1 and below 128 (no byte wrap on the chain from the opcode table through the adjustments)")
 	R.Rule("accounting", "AllCycles after Step = AllCycles before + the returned count; the first result of Step is the Cycles field")
 	R.Rule("stopped", "Step's second result and the Stopped field equal the entry value of Stopped for every opcode but STP, and are true for STP; in the whole module only the STP routine stores true, only Reset/Init-style functions store false or replace the whole CPU")
-	R.Rule("rununtil", "RunUntil: one loop; budget test cycles<maxCycles at the header; Step is called only on the false edge of GetPC()==targetPC with no effect in between; cycles is advanced only by Step's first result; the result is GetPC()==targetPC evaluated after the loop")
+	R.Rule("rununtil", "RunUntil: one loop with one Step call; over every feasible acyclic path of one iteration (branch outcomes resolved through negations and flag merges): a path that calls Step has established cycles<maxCycles for this iteration's counter and GetPC()!=targetPC with no effect between that read and Step, and returns to the header with cycles+uint64(Step's first result); a path that returns to the header without Step is followed by a pass that leaves the loop before any undecided branch; the counter starts at 0; the result is GetPC()==targetPC evaluated after the loop")
 	R.Rule("callbacks", "OnPC: looked up under RK<<16|PC, called once and only on the found edge, and the opcode is then fetched from that very address; OnWDM receives the value stored to WDM, which is the operand byte")
 	isa, err := loadISA(ctx)
 	if err != nil {
@@ -359,6 +360,29 @@ func checkOnPCShape(ctx *Ctx, m *CPUModel, rs string) {
 }
 
 // checkRunUntil decides the structural loop rules on emulator.System.RunUntil.
+func onPath(path []*ssa.BasicBlock, b *ssa.BasicBlock) bool {
+	for _, x := range path {
+		if x == b {
+			return true
+		}
+	}
+	return false
+}
+
+// definedIn: v is an instruction of one of the blocks (a value of the pass being walked, not of the previous one).
+func definedIn(v ssa.Value, blocks []*ssa.BasicBlock) bool {
+	in, ok := v.(ssa.Instruction)
+	return ok && onPath(blocks, in.Block())
+}
+
+func pathString(path []*ssa.BasicBlock) string {
+	var s []string
+	for _, b := range path {
+		s = append(s, fmt.Sprint(b.Index))
+	}
+	return "blocks " + strings.Join(s, ">")
+}
+
 func checkRunUntil(ctx *Ctx) {
 	R := ctx.R
 	fn := ctx.Prog.Method("emulator", "System", "RunUntil")
@@ -393,126 +417,361 @@ func checkRunUntil(ctx *Ctx) {
 	if !L.Body[step.Block()] {
 		fail("step-call", "Step is called outside the loop")
 	}
-	// the cycle counter: a uint64 phi at the header with a constant-0 initial value
-	var counter *ssa.Phi
-	for _, in := range L.Header.Instrs {
-		if p, ok := in.(*ssa.Phi); ok && types.Identical(p.Type(), budget.Type()) {
-			counter = p
+	okAll := true
+	// Path form of the loop rules: every acyclic path of one iteration (header -> back edge, or header -> exit) is
+	// enumerated with the branch outcomes it takes; boolean values are resolved along the path (negations, the
+	// merges of && / || and of if-assigned flags), so the rules do not depend on how the conditions are spelled.
+	type lit struct {
+		atom  ssa.Value
+		neg   bool
+		konst bool
+		c     bool
+	}
+	type iterPath struct {
+		blocks []*ssa.BasicBlock
+		back   bool // ends with the back edge (otherwise leaves the loop)
+		facts  map[ssa.Value]bool
+	}
+	var resolve func(v ssa.Value, path []*ssa.BasicBlock, env map[*ssa.Phi]ssa.Value, envPath []*ssa.BasicBlock) ssa.Value
+	resolve = func(v ssa.Value, path []*ssa.BasicBlock, env map[*ssa.Phi]ssa.Value, envPath []*ssa.BasicBlock) ssa.Value {
+		for depth := 0; depth < 32; depth++ {
+			ph, ok := v.(*ssa.Phi)
+			if !ok {
+				return v
+			}
+			if ph.Block() == L.Header {
+				if env != nil {
+					if nv, ok := env[ph]; ok {
+						// the value the previous iteration left: resolved along that iteration's path
+						return resolve(nv, envPath, nil, nil)
+					}
+				}
+				return v
+			}
+			idx := -1
+			for i, pb := range path {
+				if pb == ph.Block() {
+					idx = i
+				}
+			}
+			if idx <= 0 {
+				return v
+			}
+			e := -1
+			for i, pr := range ph.Block().Preds {
+				if pr == path[idx-1] {
+					e = i
+				}
+			}
+			if e < 0 {
+				return v
+			}
+			v = ph.Edges[e]
+		}
+		return v
+	}
+	var evalB func(v ssa.Value, path []*ssa.BasicBlock, env map[*ssa.Phi]ssa.Value, envPath []*ssa.BasicBlock) lit
+	evalB = func(v ssa.Value, path []*ssa.BasicBlock, env map[*ssa.Phi]ssa.Value, envPath []*ssa.BasicBlock) lit {
+		v = resolve(v, path, env, envPath)
+		switch t := v.(type) {
+		case *ssa.Const:
+			if t.Value != nil && t.Value.Kind() == constant.Bool {
+				return lit{konst: true, c: constant.BoolVal(t.Value)}
+			}
+		case *ssa.UnOp:
+			if t.Op == token.NOT {
+				// the operand of a value computed in the previous iteration is resolved in that iteration
+				pp, ee, ep := path, env, envPath
+				if env != nil && !onPath(path, t.Block()) {
+					pp, ee, ep = envPath, nil, nil
+				}
+				l := evalB(t.X, pp, ee, ep)
+				if l.konst {
+					l.c = !l.c
+				} else {
+					l.neg = !l.neg
+				}
+				return l
+			}
+		}
+		return lit{atom: v}
+	}
+	var paths []iterPath
+	var walk func(b *ssa.BasicBlock, cur []*ssa.BasicBlock)
+	tooMany := false
+	walk = func(b *ssa.BasicBlock, cur []*ssa.BasicBlock) {
+		if len(paths) > 4096 {
+			tooMany = true
+			return
+		}
+		cur = append(cur, b)
+		if len(b.Succs) == 0 {
+			paths = append(paths, iterPath{blocks: append([]*ssa.BasicBlock(nil), cur...)})
+			return
+		}
+		for _, sc := range b.Succs {
+			switch {
+			case sc == L.Header:
+				paths = append(paths, iterPath{blocks: append([]*ssa.BasicBlock(nil), cur...), back: true})
+			case !L.Body[sc]:
+				paths = append(paths, iterPath{blocks: append(append([]*ssa.BasicBlock(nil), cur...), sc)})
+			case onPath(cur, sc):
+				tooMany = true // an inner cycle: not a single natural loop
+			default:
+				walk(sc, cur)
+			}
 		}
 	}
-	if counter == nil {
-		fail("counter", "no cycle counter phi at the loop header")
+	walk(L.Header, nil)
+	if tooMany {
+		fail("loop", "the loop body is not a set of acyclic iteration paths")
 		return
 	}
-	okAll := true
-	// budget test
-	iff, _ := L.Header.Instrs[len(L.Header.Instrs)-1].(*ssa.If)
-	cond, _ := func() (*ssa.BinOp, bool) {
-		if iff == nil {
-			return nil, false
+	factsOf := func(path []*ssa.BasicBlock, env map[*ssa.Phi]ssa.Value, envPath []*ssa.BasicBlock) (map[ssa.Value]bool, bool) {
+		facts := map[ssa.Value]bool{}
+		for i := 0; i+1 < len(path); i++ {
+			iff, ok := path[i].Instrs[len(path[i].Instrs)-1].(*ssa.If)
+			if !ok {
+				continue
+			}
+			taken := path[i].Succs[0] == path[i+1]
+			if path[i].Succs[0] == path[i].Succs[1] {
+				continue
+			}
+			l := evalB(iff.Cond, path[:i+1], env, envPath)
+			if l.konst {
+				if l.c != taken {
+					return nil, false // infeasible
+				}
+				continue
+			}
+			val := taken != l.neg
+			if old, ok := facts[l.atom]; ok && old != val {
+				return nil, false
+			}
+			facts[l.atom] = val
 		}
-		b, ok := iff.Cond.(*ssa.BinOp)
-		return b, ok
-	}()
-	switch {
-	case cond == nil:
-		fail("budget", "the loop header does not end in a comparison")
-		okAll = false
-	default:
-		// the header stays in the loop exactly when cycles < maxCycles, whichever way the
-		// test is written: `cycles < max` / `max > cycles` continuing on the true edge, or
-		// `cycles >= max` / `max <= cycles` leaving on the true edge (`for { if .. break }`)
-		cont := (cond.Op == token.LSS && cond.X == counter && cond.Y == budget) || (cond.Op == token.GTR && cond.Y == counter && cond.X == budget)
-		leave := (cond.Op == token.GEQ && cond.X == counter && cond.Y == budget) || (cond.Op == token.LEQ && cond.Y == counter && cond.X == budget)
+		return facts, true
+	}
+	// a path that ends with the back edge carries its last branch too
+	fullBlocks := func(p iterPath) []*ssa.BasicBlock {
+		if p.back {
+			return append(append([]*ssa.BasicBlock(nil), p.blocks...), L.Header)
+		}
+		return p.blocks
+	}
+	var feasible []iterPath
+	for _, p := range paths {
+		f, ok := factsOf(fullBlocks(p), nil, nil)
+		if !ok {
+			continue
+		}
+		p.facts = f
+		feasible = append(feasible, p)
+	}
+	isBudgetTrue := func(atom ssa.Value, val bool) *ssa.Phi {
+		bo, ok := atom.(*ssa.BinOp)
+		if !ok {
+			return nil
+		}
+		var c ssa.Value
 		switch {
-		case !cont && !leave:
-			fail("budget", "the loop condition is not cycles < maxCycles: "+cond.String())
+		case bo.Op == token.LSS && bo.Y == budget && val, bo.Op == token.GEQ && bo.Y == budget && !val:
+			c = bo.X
+		case bo.Op == token.GTR && bo.X == budget && val, bo.Op == token.LEQ && bo.X == budget && !val:
+			c = bo.Y
+		default:
+			return nil
+		}
+		if ph, ok := c.(*ssa.Phi); ok && ph.Block() == L.Header && types.Identical(ph.Type(), budget.Type()) {
+			return ph
+		}
+		return nil
+	}
+	isTargetEq := func(atom ssa.Value) *ssa.Call {
+		bo, ok := atom.(*ssa.BinOp)
+		if !ok || (bo.Op != token.EQL && bo.Op != token.NEQ) {
+			return nil
+		}
+		for _, pair := range [][2]ssa.Value{{bo.X, bo.Y}, {bo.Y, bo.X}} {
+			if c, ok := pair[0].(*ssa.Call); ok && pair[1] == target && c.Call.StaticCallee() != nil && isGetPC(c.Call.StaticCallee()) {
+				return c
+			}
+		}
+		return nil
+	}
+	var counter *ssa.Phi
+	nStepPaths := 0
+	for _, p := range feasible {
+		if !onPath(p.blocks, step.Block()) {
+			continue
+		}
+		nStepPaths++
+		// (1) budget: the path holds cycles < maxCycles for the counter of this iteration
+		var c *ssa.Phi
+		for a, v := range p.facts {
+			if ph := isBudgetTrue(a, v); ph != nil {
+				c = ph
+			}
+		}
+		if c == nil {
+			fail("budget", "an iteration reaches Step without having established cycles < maxCycles: "+pathString(p.blocks))
 			okAll = false
-		case cont && (!L.Body[L.Header.Succs[0]] || L.Body[L.Header.Succs[1]]), leave && (L.Body[L.Header.Succs[0]] || !L.Body[L.Header.Succs[1]]):
-			fail("budget", "the budget test does not leave the loop when it fails")
+			continue
+		}
+		if counter != nil && counter != c {
+			fail("budget", "different counters are compared with the budget on different paths")
 			okAll = false
+		}
+		counter = c
+		// (2) target: the path holds GetPC() != targetPC, read on this path with no effect before Step
+		var pcCall *ssa.Call
+		for a, v := range p.facts {
+			if cl := isTargetEq(a); cl != nil {
+				eq := v
+				if a.(*ssa.BinOp).Op == token.NEQ {
+					eq = !v
+				}
+				if !eq && onPath(p.blocks, cl.Block()) {
+					pcCall = cl
+				}
+			}
+		}
+		if pcCall == nil {
+			fail("target-test", "an iteration reaches Step without having found GetPC() != targetPC: "+pathString(p.blocks))
+			okAll = false
+			continue
+		}
+		started := false
+		for _, b := range p.blocks {
+			lo, hi := -1, len(b.Instrs)
+			if b == pcCall.Block() {
+				if b == step.Block() && instrIndex(step) < instrIndex(pcCall) {
+					fail("target-test", "Step is called before the PC is read")
+					okAll = false
+					break
+				}
+				started = true
+				lo = instrIndex(pcCall)
+			}
+			if !started {
+				continue
+			}
+			if b == step.Block() {
+				hi = instrIndex(step)
+			}
+			if e := hasEffectBetween(b, lo, hi); e != nil {
+				fail("target-test", "an effect occurs between reading the PC and Step: "+e.String())
+				okAll = false
+			}
+			if b == step.Block() {
+				break
+			}
+		}
+		// (3) the counter advances by Step's first result on the way back to the header
+		if p.back {
+			latch := p.blocks[len(p.blocks)-1]
+			for i, pr := range L.Header.Preds {
+				if pr != latch {
+					continue
+				}
+				nv := resolve(c.Edges[i], fullBlocks(p), nil, nil)
+				add, ok := nv.(*ssa.BinOp)
+				good := false
+				if ok && add.Op == token.ADD {
+					for _, pair := range [][2]ssa.Value{{add.X, add.Y}, {add.Y, add.X}} {
+						if resolve(pair[0], p.blocks, nil, nil) != ssa.Value(c) {
+							continue
+						}
+						if cv, ok := pair[1].(*ssa.Convert); ok {
+							if ex, ok := cv.X.(*ssa.Extract); ok && ex.Tuple == step && ex.Index == 0 {
+								good = true
+							}
+						}
+					}
+				}
+				if !good {
+					fail("counter-advance", "after Step the counter is not cycles + uint64(first result of Step): "+nv.String())
+					okAll = false
+				}
+			}
 		}
 	}
-	// counter advance
-	for i, e := range counter.Edges {
-		pred := L.Header.Preds[i]
-		if !L.Body[pred] {
-			if c, ok := e.(*ssa.Const); !ok || c.Uint64() != 0 {
+	if nStepPaths == 0 {
+		fail("step-call", "no feasible iteration calls Step")
+		okAll = false
+	}
+	if counter != nil {
+		for i, pr := range L.Header.Preds {
+			if L.Body[pr] {
+				continue
+			}
+			if c, ok := counter.Edges[i].(*ssa.Const); !ok || c.Uint64() != 0 {
 				fail("counter-init", "the cycle counter does not start at 0")
 				okAll = false
 			}
+		}
+	}
+	// (4) an iteration that does not call Step must not be followed by another one: taking the values it leaves
+	// in the header's variables, the next pass from the header leaves the loop before any undecided branch
+	for _, p := range feasible {
+		if !p.back || onPath(p.blocks, step.Block()) {
 			continue
 		}
-		add, ok := e.(*ssa.BinOp)
-		good := false
-		if ok && add.Op == token.ADD {
-			for _, pair := range [][2]ssa.Value{{add.X, add.Y}, {add.Y, add.X}} {
-				if pair[0] != counter {
-					continue
-				}
-				cv, ok := pair[1].(*ssa.Convert)
-				if !ok {
-					continue
-				}
-				ex, ok := cv.X.(*ssa.Extract)
-				if ok && ex.Tuple == step && ex.Index == 0 {
-					good = true
+		latch := p.blocks[len(p.blocks)-1]
+		env := map[*ssa.Phi]ssa.Value{}
+		for i, pr := range L.Header.Preds {
+			if pr != latch {
+				continue
+			}
+			for _, in := range L.Header.Instrs {
+				if ph, ok := in.(*ssa.Phi); ok {
+					env[ph] = ph.Edges[i]
 				}
 			}
 		}
-		if !good {
-			fail("counter-advance", "on a back edge the counter is not cycles + uint64(first result of Step): "+e.String())
-			okAll = false
-		}
-	}
-	// target test dominating Step
-	var tests []*ssa.BinOp
-	for b := range L.Body {
-		for _, in := range b.Instrs {
-			if bo, ok := in.(*ssa.BinOp); ok && bo.Op == token.EQL {
-				for _, pair := range [][2]ssa.Value{{bo.X, bo.Y}, {bo.Y, bo.X}} {
-					if c, ok := pair[0].(*ssa.Call); ok && pair[1] == target && c.Call.StaticCallee() != nil && isGetPC(c.Call.StaticCallee()) {
-						tests = append(tests, bo)
-					}
+		prev := fullBlocks(p)
+		cur := []*ssa.BasicBlock{L.Header}
+		b := L.Header
+		left := false
+		for steps := 0; steps < 64; steps++ {
+			if !L.Body[b] {
+				left = true
+				break
+			}
+			if b == step.Block() && steps > 0 || len(b.Succs) == 0 {
+				break
+			}
+			var next *ssa.BasicBlock
+			if len(b.Succs) == 1 {
+				next = b.Succs[0]
+			} else {
+				iff := b.Instrs[len(b.Instrs)-1].(*ssa.If)
+				l := evalB(iff.Cond, cur, env, prev)
+				decided, val := false, false
+				if l.konst {
+					decided, val = true, l.c
+				} else if fv, ok := p.facts[l.atom]; ok && !definedIn(l.atom, cur) {
+					decided, val = true, fv != l.neg
+				}
+				if !decided {
+					break
+				}
+				if val {
+					next = b.Succs[0]
+				} else {
+					next = b.Succs[1]
 				}
 			}
-		}
-	}
-	if len(tests) != 1 {
-		fail("target-test", fmt.Sprintf("%d comparisons GetPC()==targetPC inside the loop, want 1", len(tests)))
-		okAll = false
-	} else {
-		t := tests[0]
-		tb := t.Block()
-		tif, _ := tb.Instrs[len(tb.Instrs)-1].(*ssa.If)
-		var call *ssa.Call
-		if c, ok := t.X.(*ssa.Call); ok {
-			call = c
-		} else {
-			call = t.Y.(*ssa.Call)
-		}
-		switch {
-		case tif == nil || tif.Cond != t:
-			fail("target-test", "the comparison does not decide a branch")
-			okAll = false
-		case L.Body[tb.Succs[0]] && tb.Succs[0] != L.Header:
-			fail("target-test", "reaching the target does not leave the loop")
-			okAll = false
-		case tb.Succs[1] != step.Block() || len(step.Block().Preds) != 1:
-			fail("target-test", "Step is not called exactly on the not-at-target edge")
-			okAll = false
-		case call.Block() != tb:
-			fail("target-test", "GetPC is evaluated in another block than the test")
-			okAll = false
-		default:
-			if e := hasEffectBetween(tb, instrIndex(call), len(tb.Instrs)); e != nil {
-				fail("target-test", "an effect occurs between reading the PC and testing it: "+e.String())
-				okAll = false
+			if next == L.Header {
+				break
 			}
-			if e := hasEffectBetween(step.Block(), -1, instrIndex(step)); e != nil {
-				fail("target-test", "an effect occurs between the target test and Step: "+e.String())
-				okAll = false
-			}
+			cur = append(cur, next)
+			b = next
+		}
+		if !left {
+			fail("progress", "an iteration that does not call Step can be followed by another one (the counter does not advance, the loop may not end): "+pathString(p.blocks))
+			okAll = false
 		}
 	}
 	// result
@@ -538,7 +797,7 @@ func checkRunUntil(ctx *Ctx) {
 		}
 	}
 	if okAll {
-		R.Pass("rununtil", "emulator.(*System).RunUntil", pos, "loop shape, budget test, target test before Step, counter advance and result as required")
+		R.Pass("rununtil", "emulator.(*System).RunUntil", pos, "iteration paths: budget and target tests hold on every path to Step, counter advance, no idle repetition, result as required")
 	}
 	R.Count("rununtil-function", 1)
 	R.Floor("rununtil-function", 1)
